@@ -255,6 +255,8 @@ def scenarios_processed_once(ctx: Ctx) -> bool:
         for cl in facts.at(n):
             if len(cl) == 1:
                 (t, pol), = tuple(cl)
+                if " not in " in t:                       # `x not in r` true  ==  `x in r` false
+                    t, pol = t.replace(" not in ", " in ", 1), (not pol)
                 if pol is False and t.startswith(f"{arg} in self."):
                     rec = t.split(" in ", 1)[1]
         adds = [x for x in own_nodes(ps) if isinstance(x, ast.Call) and isinstance(x.func, ast.Attribute) and x.func.attr == "add"
@@ -284,6 +286,8 @@ def once_per_scenario_rule(ctx: Ctx, rid: str):
         for cl in facts.at(n):
             if len(cl) == 1:
                 (t, pol), = tuple(cl)
+                if " not in " in t:                       # `x not in r` true  ==  `x in r` false
+                    t, pol = t.replace(" not in ", " in ", 1), (not pol)
                 if pol is False and t.startswith(f"{arg} in self."):
                     rec = t.split(" in ", 1)[1]
         adds = [x for x in own_nodes(ps) if isinstance(x, ast.Call) and isinstance(x.func, ast.Attribute) and x.func.attr == "add"
